@@ -101,6 +101,15 @@ pub trait NamingContext {
 
     /// Apply serde naming convention transformations
     fn apply_naming_convention(&self, field_name: &str, convention: RenameRule) -> String {
+        // serde_rename_rule slices off the first byte of the PascalCase form for camelCase and
+        // panics when that form is empty (`_`, `__`) or starts with a multi-byte character
+        if convention == RenameRule::CamelCase
+            && !field_name
+                .trim_start_matches('_')
+                .starts_with(|c: char| c.is_ascii())
+        {
+            return field_name.to_string();
+        }
         convention.apply_to_field(field_name)
     }
 
